@@ -1,5 +1,6 @@
 """C01 — nothing in an accepted message is silently discarded."""
 from .common import Report
+from . import accept
 from . import grules
 
 LEVEL = "other"
@@ -33,4 +34,5 @@ def run(F, tier):
             rep.sample({"type": tm.name,
                         "parse_steps": ["%s %s<%s>" % (s.kind, s.tag, (s.ty or '').split('::')[-1]) for s in tm.g.sites][:12],
                         "appends": [".".join(a.path or ("?",)) for a in tm.w.appends][:12]})
+    accept.u6(rep, F, "parser")
     return rep
